@@ -1,7 +1,15 @@
 package main
 
-import "verifharness/internal/vh"
+import (
+	"os"
+
+	"verifharness/internal/vh"
+)
 
 func main() {
+	if len(os.Args) > 1 && os.Args[1] == "faultchild" {
+		faultChild(os.Args[2:]) // first life of a write-fault case, see fault.go
+		return
+	}
 	vh.Main(vh.Harness{Property: "C02", Run: run, Replay: replay})
 }
